@@ -50,6 +50,36 @@ def handle (j : Json) : IO Unit := do
     let spec := spec1 && keeps
     let classes := String.intercalate "," (rounds.map (·.1))
     emit case agree spec s!"discover.{classes}" (if spec then "" else if !keeps then "failed-listing-changed-the-catalogue" else "catalogue-inconsistent-after-listing") note
+  | "discover-round" =>
+    -- a whole round (DiscoverAll) over several endpoints: round 0 good everywhere, round 1 each endpoint its own class, round 2 good
+    if jstr (jget impl "setup_err") != "" then emit case false true "setup-error" "" (jstr (jget impl "setup_err")); return
+    let classes := jstrList (jget j "classes")
+    let rounds := jarr (jget impl "rounds")
+    let returned := rounds.length == 3 && rounds.all (fun r => jbool (jget r "returned") && guardOk (jget r "guard"))
+    let namesAt := fun (r : Json) (i : Nat) => jstrList ((jarr (jget r "names")).getD i Json.null)
+    let expected := fun (i : Nat) (round : Nat) (cur : List String) =>
+      let cl := if round == 1 then classes.getD i "good" else "good"
+      (discover cur (outcomeOfClass cl [s!"m{i}-r{round}", "shared"])).1
+    -- a sibling's failure may cancel the round before a good listing was fetched (errgroup): in the mixed round a good
+    -- endpoint either takes its new listing up or keeps the previous one
+    let perEp := (List.range classes.length).map (fun i =>
+      (List.range rounds.length).foldl (fun (st : List String × Bool) round =>
+        let got := namesAt (rounds.getD round Json.null) i
+        let next := sortStr (expected i round st.1)
+        let mixed := round == 1 && classes.any (· != "good")
+        (got, st.2 && (next == got || (mixed && got == st.1)))) ([], true))
+    let agree := returned && perEp.all (·.2)
+    let keeps := (List.range classes.length).all (fun i =>
+      ((List.range rounds.length).zip (List.range rounds.length).tail).all (fun (a, b) =>
+        let before := namesAt (rounds.getD a Json.null) i
+        let after := namesAt (rounds.getD b Json.null) i
+        let failed := b == 1 && (discover before (outcomeOfClass (classes.getD i "good") ["x"])).2
+        errorKeeps before after failed))
+    let taken := !returned || (List.range classes.length).all (fun i => namesAt (rounds.getD 2 Json.null) i == sortStr [s!"m{i}-r2", "shared"])
+    let spec := returned && keeps && taken
+    emit case agree spec s!"discover-round.workers{jnat (jget j "workers")}.bad{(classes.filter (· != "good")).length}of{classes.length}"
+      (if spec then "" else if !returned then "discovery-round-never-returns" else if !keeps then "failed-listing-changed-the-catalogue" else "catalogue-stuck-after-bad-listings")
+      (if spec && agree then "" else s!"workers {jnat (jget j "workers")}, listings in the middle round {classes}: rounds returned {rounds.map (fun r => jbool (jget r "returned"))}, catalogue per endpoint after each round {rounds.map (fun r => (jget r "names").compress)}")
   | "metrics" =>
     let ok := guardOk (jget impl "guard")
     let fin := jbool (jget impl "finite")
